@@ -26,6 +26,12 @@ B(bs, o) == bs[o + 1]
 U16(bs, o) == B(bs, o) * 256 + B(bs, o + 1)
 Slice(bs, o, n) == SubSeq(bs, o + 1, o + n)
 
+(* IPv6 extension-header chain (RFC 8200 4: hop-by-hop 0, routing 43, destination options 60; Hdr Ext Len counts 8-octet
+   units beyond the first): <<offset of the upper-layer header, its protocol number>> *)
+RECURSIVE SkipExt(_, _, _, _)
+SkipExt(bs, o, nh, fuel) == IF nh \in {0, 43, 60} /\ fuel > 0 THEN SkipExt(bs, o + (B(bs, o + 1) + 1) * 8, B(bs, o), fuel - 1)
+                            ELSE <<o, nh>>
+
 (* the packet record of a serialised frame.  hint: the request's upper layer -- only used to tell "dns" from "udp" (both
    are UDP on the wire, ports are arbitrary); reqQuote: what an ICMP error would quote if it quoted the request *)
 Read(bs, hint, reqQuote) ==
@@ -34,9 +40,9 @@ Read(bs, hint, reqQuote) ==
         et == IF tagged THEN U16(bs, 16) ELSE U16(bs, 12)
         net == IF et = 2048 THEN "ip4" ELSE IF et = 34525 THEN "ip6" ELSE "other"
         ip4 == net = "ip4"
-        hl == IF ip4 THEN (B(bs, o3) % 16) * 4 ELSE 40
-        o4 == o3 + hl
-        proto == IF ip4 THEN B(bs, o3 + 9) ELSE B(bs, o3 + 6)
+        x6 == SkipExt(bs, o3 + 40, B(bs, o3 + 6), 4)
+        o4 == IF ip4 THEN o3 + (B(bs, o3) % 16) * 4 ELSE x6[1]                 \* IHL (RFC 791) / end of the extension chain
+        proto == IF ip4 THEN B(bs, o3 + 9) ELSE x6[2]
         t == B(bs, o4)
         upper == CASE proto = 6 -> "tcp"
                    [] proto = 17 -> (IF hint = "dns" THEN "dns" ELSE "udp")
